@@ -37,6 +37,14 @@ namespace BitSerializer
 						"The value being loaded is not a valid ISO datetime: " + isoDate);
 				}
 			}
+			catch (const std::out_of_range&)
+			{
+				if (options.overflowNumberPolicy == OverflowNumberPolicy::ThrowError)
+				{
+					throw SerializationException(SerializationErrorCode::Overflow,
+						"The range of `time_t` is not sufficient to store the value being loaded: " + isoDate);
+				}
+			}
 			catch (...) {
 				throw SerializationException(SerializationErrorCode::ParsingError, "Unknown error when parsing datetime");
 			}
